@@ -229,6 +229,24 @@ func streamScope(o *Out, r *rand.Rand, n int, thorough bool) {
 		{"c = \"outer\"\nr = nil\nfunc h() {\ntry {\nvar c, d = \"inner\", nosuch\n} catch e {\nr = c\n}\n}\nh()\nprobe(r)", vals.Encode("outer")},
 		{"c = \"outer\"\nfunc h2() {\nvar r = nil\nfor k in [1] {\ntry {\nvar c, d, e2 = \"inner\", probe(1), nosuch\n} catch e {\n}\nr = c\n}\nreturn r\n}\nprobe(h2())", vals.Encode("outer")},
 		{"x = 1\ny = 2\nz = 3\nfunc sw() {\nvar x, y, z = z, x, y\nreturn [x, y, z]\n}\nprobe([sw(), x, y, z])", vals.Encode([]interface{}{[]interface{}{int64(3), int64(1), int64(2)}, int64(1), int64(2), int64(3)})},
+		// a closure made in a block that binds nothing keeps seeing the bindings of the place it was made in, also while and
+		// after LATER blocks of the same invocation run under scopes that shadow the names it reads
+		{"x = \"global\"\nfunc pick() {\nvar x = \"local\"\nvar get = nil\nif true {\nget = func() { return x }\n}\nvar seen = [get()]\nfor i = 0; i < 1; i++ {\nvar x = \"loop\"\nif i == 0 {\nseen += get()\n}\n}\nseen += get()\nreturn seen\n}\nprobe(pick())",
+			vals.Encode([]interface{}{"local", "local", "local"})},
+		{"func collect() {\nvar x = \"A\"\nvar fs = []\nif len(fs) == 0 {\nfs += func() { return \"first:\" + x }\n}\nswitch 1 {\ncase 1:\nvar x = \"B\"\nif true {\nfs += func() { return \"second:\" + x }\n}\n}\nreturn [fs[0](), fs[1]()]\n}\nprobe(collect())",
+			vals.Encode([]interface{}{"first:A", "second:B"})},
+		{"func h() {\nvar x = 1\nvar g = nil\nif x == 2 {\n} else if x == 1 {\ng = func() { return x }\n} else {\n}\nvar r = []\ntry {\nvar x = 50\nif true {\nr += g()\n} else {\n}\n} catch e {\n}\nfor k in [7] {\nvar x = k\nif k == 7 {\nr += g()\n}\n}\nreturn r\n}\nprobe(h())",
+			vals.Encode([]interface{}{int64(1), int64(1)})},
+		// a Go function that panics deep inside nested blocks of a try body: catch, finally and what follows run in the scope
+		// of the try statement, not in the block that was executing
+		{"x = \"outer\"\ntotal = 0\nseen = \"-\"\ntry {\nfor i = 0; i < 3; i++ {\nvar total = 100\nif i == 1 {\nvar x = \"inner\"\nboom()\n}\n}\n} catch e {\nseen = x\ntotal += 1\n} finally {\nseen += \"/\" + x\n}\nprobe([seen, total])",
+			vals.Encode([]interface{}{"outer/outer", int64(1)})},
+		{"func f() {\nvar who = \"f\"\nvar log = []\ntry {\nswitch 1 {\ncase 1:\nvar who = \"case\"\nfor n in [1, 2] {\nvar who = \"loop\"\nboom()\n}\n}\n} catch err {\nlog += \"catch sees \" + who\n}\nlog += \"after sees \" + who\nreturn log\n}\nprobe(f())",
+			vals.Encode([]interface{}{"catch sees f", "after sees f"})},
+		{"v = \"top\"\nr = (func() {\nvar v = \"fn\"\nif true {\nvar v = \"blk\"\nboom()\n}\n}() ?? v)\nprobe([r, v])", vals.Encode([]interface{}{"top", "top"})},
+		// the variable(s) of a for-in loop live in the loop's scope: equally named variables outside keep their values
+		{"v = 7\nk = 8\nfor v in [1, 2] {\n}\nfor k, v in {\"a\": 1} {\n}\nprobe([k, v])", vals.Encode([]interface{}{int64(8), int64(7)})},
+		{"func f() {\nvar i = \"mine\"\nfor i in [1, 2, 3] {\ni = i * 2\n}\nreturn i\n}\nprobe(f())", vals.Encode("mine")},
 		// the variable of a for-in loop is bound afresh for every element, whatever the body did to that name, for typed slices as for lists
 		{"ts = make([]int64, 4)\nfor j = 0; j < 4; j++ {\nts[j] = j\n}\nseen = []\nfor i in ts {\nseen += i\nif i == 1 {\ni = 10\n}\n}\nprobe(seen)", vals.Encode([]interface{}{int64(0), int64(1), int64(2), int64(3)})},
 		{"ts = make([]string, 3)\nts[0] = \"a\"\nts[1] = \"b\"\nts[2] = \"c\"\nseen = []\nfor s in ts {\nseen += s\nvar s = \"shadow\"\n}\nprobe(seen)", vals.Encode([]interface{}{"a", "b", "c"})},
